@@ -435,6 +435,17 @@ def falsify(ctx):
     if why:
         ctx.violation("exit-codes", why, {"exit": True, "why": why})
     _relative_paths_case(ctx)
+    # free-text values whose leading / trailing white space is part of the value
+    for option, value in (("custom_file_header", "# hdr\n"), ("custom_file_header", "\n# hdr"), ("custom_file_header", "  # hdr  "), ("custom_file_header", "# a\n\n"),
+                          ("class_name", "Zoo")):   # (a prefix that is no identifier part, e.g. with a blank, makes the name loop spin: C07's prefix guard)
+        ctx.count("eval_e2e")
+        ctx.nontrivial(("padded", option, value))
+        try:
+            why = three_ways(option, value, None)
+        except StopIteration:
+            continue
+        if why:
+            ctx.violation(f"three-ways:{option}:{value!r}", f"value {value!r}: {why}", {"option": option, "value": value, "other": None, "why": why})
     ctx.sample({"three_ways": [o for o, _ in todo[:5]]})
 
 
